@@ -38,7 +38,7 @@ func zxC01RoundUp() { zxRoundSpec(1 << 30) }
 // the same for the resolution users configure (1 s): the remainder by 10^9 is decided by cvc5's
 // integer encoding of bit-vectors (--solve-bv-as-int=sum), see DESIGN §2
 //
-//zx:harness prop=C01+C07 id=C01.R1s tier=quick solver=cvc5-int timeout=120000
+//zx:harness prop=C01+C07 id=C01.R1s tier=quick solver=cvc5-int timeout=900000
 func zxC01RoundUp1s() { zxRoundSpec(time.Second) }
 
 func zxRoundSpec(res time.Duration) {
